@@ -1145,10 +1145,7 @@ fn check_constraint(
                 Some(decl) => diagnostics.push(
                     Diagnostic::error()
                         .with_code(ErrorCode::E21)
-                        .with_message(format!(
-                            "invalid constraint identifier `{}`",
-                            constraint.value.unwrap()
-                        ))
+                        .with_message(format!("invalid constraint identifier `{}`", constraint.id))
                         .with_labels(vec![
                             constraint.loc.primary(),
                             field.loc.secondary().with_message(format!(
